@@ -18,7 +18,19 @@ using NV = tv::TrackedT<false>;
 using NV = tv::TrackedT<true>;
 #endif
 using List = std::vector<NV>;
-struct Res { List l, r; };
+// the root value type: copyable in the copyable build, with a move constructor that is NOT noexcept (as hand-written value types often are)
+struct Res
+{
+    List l, r;
+    Res() = default;
+    Res(List&& a, List&& b) : l(std::move(a)), r(std::move(b)) {}
+    Res(Res&& o) : l(std::move(o.l)), r(std::move(o.r)) {}
+    Res& operator=(Res&& o) { l = std::move(o.l); r = std::move(o.r); return *this; }
+#ifndef VALUES_MOVE_ONLY
+    Res(const Res&) = default;
+    Res& operator=(const Res&) = default;
+#endif
+};
 struct ItemF { NV operator()(char) const { return NV(tv::Fresh{}, false, 0); } };
 struct One { List operator()(NV&& v) const { List l; l.reserve(2); l.emplace_back(std::move(v)); return l; } };
 struct Join { Res operator()(List&& a, char, List&& b) const { return Res{std::move(a), std::move(b)}; } };
@@ -157,7 +169,10 @@ struct P_C14h
                     }
                     for (auto* lst : {&r.l, &r.r}) for (auto& x : *lst) if (x.moved_from) return Verdict::fail("a list element is a moved-from value", d);
                     d.set("element_copies", (long long)tv::reg().nterm_copies); d.set("push_back_appends", (unsigned long long)w.pushes);
-                    if (size_t(tv::reg().nterm_copies) > w.pushes) return Verdict::fail("element values were copied on their way into the list (emplace_back must move; push_back copies at most once)", d);
+                    // The root type's move constructor is not noexcept, which makes the library's value variant potentially-throwing to move: when the
+                    // value stack (a std::vector, 1024 entries reserved) has to grow, std::vector COPIES its elements. That is the standard container's
+                    // strong guarantee, not something C14 forbids, so copies are only counted for texts that cannot make the stack grow.
+                    if (text.size() < 1000 && size_t(tv::reg().nterm_copies) > w.pushes) return Verdict::fail("element values were copied on their way into the list (emplace_back must move; push_back copies at most once)", d);
                     if (w.nl + w.nr >= 4) ++interesting;
                     if (w.nl + w.nr >= 1024) any_deep = true;
                     if (w.pushes) any_push = true;
